@@ -259,12 +259,14 @@ struct Form {
     ops: Vec<Op>,     // explicit operands (for addressing fix-up and windows)
     sse: bool,
     aux: i64,         // class-specific (rep kind, branch target, ...)
+    alias: bool,      // generated by G::aliasing (operand aliasing forms: visited first, 1 in 4)
 }
 
 struct G {
     mode: Mode,
     forms: Vec<Form>,
     r: Rng,
+    in_alias: bool,
 }
 const ALU_C: [&str; 8] = ["AAdd", "AOr", "AAdc", "ASbb", "AAnd", "ASub", "AXor", "ACmp"];
 const ALU_M: [&str; 8] = ["add", "or", "adc", "sbb", "and", "sub", "xor", "cmp"];
@@ -337,7 +339,7 @@ impl G {
     #[allow(clippy::too_many_arguments)]
     fn add(&mut self, class: &'static str, mnem: &str, sz: u8, coq: String, text: String, ops: Vec<Op>, e: Enc, aux: i64) {
         if let Some(bytes) = enc(&e) {
-            self.forms.push(Form { mode: self.mode, coq, text, bytes, class, mnem: mnem.into(), sz, ops, sse: false, aux });
+            self.forms.push(Form { mode: self.mode, coq, text, bytes, class, mnem: mnem.into(), sz, ops, sse: false, aux, alias: self.in_alias });
         }
     }
     fn regf(o: &Op, sz: u8) -> RegF {
@@ -496,6 +498,120 @@ impl G {
 }
 
 impl G {
+    /// memory operand whose base (k = 0) or base AND index (k = 1) is the given register
+    fn mem_on(&mut self, r: u8, k: u64) -> Op {
+        let w = self.mode.word();
+        let d8 = ((self.r.below(100) as i64) - 50) & !3;
+        if k == 0 || r == 4 { Op::Mem { base: Some(r), index: None, disp: d8, asz: w, rip: false } }
+        else { Op::Mem { base: Some(r), index: Some((r, *self.r.pick(&[1u8, 2, 4, 8]))), disp: d8, asz: w, rip: false } }
+    }
+    /// aliasing forms: every two-operand register/memory class with the destination register used in the address
+    fn aliasing(&mut self) {
+        let m = self.mode;
+        for sz in self.sizes() {
+            let w = if sz == 8 { 0 } else { 1 };
+            for k in 0..2u64 {
+                // byte registers that can also be an address register: al/cl/dl/bl (and sil.. with REX in long mode)
+                let r = if sz == 8 { self.r.below(4) as u8 } else { self.gp_nosp() };
+                let mm = self.mem_on(r, k);
+                let d = Op::Reg(r);
+                // mov r, [r] ; mov [r], r
+                self.add("mov", "mov", sz, format!("(IMov {} {} {})", sz, d.coq(), mm.coq()), format!("mov {}, {}", d.text(sz), mm.text(sz)), vec![d.clone(), mm.clone()],
+                    Enc { mode: m, opsz: sz, def64: false, pre: &[], opc: &[0x8A + w], reg: Some(G::regf(&d, sz)), rm: Some((&mm, false)), plusr: None, imm: vec![] }, 0);
+                self.add("mov", "mov", sz, format!("(IMov {} {} {})", sz, mm.coq(), d.coq()), format!("mov {}, {}", mm.text(sz), d.text(sz)), vec![mm.clone(), d.clone()],
+                    Enc { mode: m, opsz: sz, def64: false, pre: &[], opc: &[0x88 + w], reg: Some(G::regf(&d, sz)), rm: Some((&mm, false)), plusr: None, imm: vec![] }, 0);
+                // ALU group, both directions
+                for op in [0u8, 2, 3, 5, 6, 7] {
+                    let (c, mn) = (ALU_C[op as usize], ALU_M[op as usize]);
+                    self.add("alu", mn, sz, format!("(IAlu {} {} {} {})", c, sz, d.coq(), mm.coq()), format!("{} {}, {}", mn, d.text(sz), mm.text(sz)), vec![d.clone(), mm.clone()],
+                        Enc { mode: m, opsz: sz, def64: false, pre: &[], opc: &[op * 8 + 2 + w], reg: Some(G::regf(&d, sz)), rm: Some((&mm, false)), plusr: None, imm: vec![] }, 0);
+                    self.add("alu", mn, sz, format!("(IAlu {} {} {} {})", c, sz, mm.coq(), d.coq()), format!("{} {}, {}", mn, mm.text(sz), d.text(sz)), vec![mm.clone(), d.clone()],
+                        Enc { mode: m, opsz: sz, def64: false, pre: &[], opc: &[op * 8 + w], reg: Some(G::regf(&d, sz)), rm: Some((&mm, false)), plusr: None, imm: vec![] }, 0);
+                }
+                // xchg / xadd / cmpxchg [r], r
+                self.add("xchg", "xchg", sz, format!("(IXchg {} {} {})", sz, mm.coq(), d.coq()), format!("xchg {}, {}", mm.text(sz), d.text(sz)), vec![mm.clone(), d.clone()],
+                    Enc { mode: m, opsz: sz, def64: false, pre: &[], opc: &[0x86 + w], reg: Some(G::regf(&d, sz)), rm: Some((&mm, false)), plusr: None, imm: vec![] }, 0);
+                self.add("nospec-xadd", "xadd", sz, "(INoSpec 15)".into(), format!("xadd {}, {}", mm.text(sz), d.text(sz)), vec![mm.clone(), d.clone()],
+                    Enc { mode: m, opsz: sz, def64: false, pre: &[], opc: &[0x0F, 0xC0 + w], reg: Some(G::regf(&d, sz)), rm: Some((&mm, false)), plusr: None, imm: vec![] }, 0);
+                self.add("nospec-cmpxchg", "cmpxchg", sz, "(INoSpec 15)".into(), format!("cmpxchg {}, {}", mm.text(sz), d.text(sz)), vec![mm.clone(), d.clone()],
+                    Enc { mode: m, opsz: sz, def64: false, pre: &[], opc: &[0x0F, 0xB0 + w], reg: Some(G::regf(&d, sz)), rm: Some((&mm, false)), plusr: None, imm: vec![] }, 0);
+                if sz > 8 {
+                    // lea r, [r + r*s + d] ; imul r, [r] ; cmov r, [r] ; movzx/movsx r, byte/word [r] ; bsf r, [r]
+                    self.add("lea", "lea", sz, format!("(ILea {} {} {})", sz, r, mm.coq()), format!("lea {}, {}", regname(r, sz), mm.text(0)), vec![Op::Reg(r)],
+                        Enc { mode: m, opsz: sz, def64: false, pre: &[], opc: &[0x8D], reg: Some(RegF::R(r, false)), rm: Some((&mm, false)), plusr: None, imm: vec![] }, 0);
+                    self.add("mul", "imul", sz, format!("(IImul2 {} {} {})", sz, r, mm.coq()), format!("imul {}, {}", regname(r, sz), mm.text(sz)), vec![Op::Reg(r), mm.clone()],
+                        Enc { mode: m, opsz: sz, def64: false, pre: &[], opc: &[0x0F, 0xAF], reg: Some(RegF::R(r, false)), rm: Some((&mm, false)), plusr: None, imm: vec![] }, 0);
+                    let cc = self.r.below(16) as u8;
+                    self.add("cmov", &format!("cmov{}", CC_M[cc as usize]), sz, format!("(ICmov {} {} {} {})", CC_C[cc as usize], sz, r, mm.coq()), format!("cmov{} {}, {}", CC_M[cc as usize], regname(r, sz), mm.text(sz)), vec![Op::Reg(r), mm.clone()],
+                        Enc { mode: m, opsz: sz, def64: false, pre: &[], opc: &[0x0F, 0x40 + cc], reg: Some(RegF::R(r, false)), rm: Some((&mm, false)), plusr: None, imm: vec![] }, 0);
+                    for ssz in [8u8, 16] {
+                        if ssz >= sz { continue; }
+                        for (sg, mn, opc) in [(false, "movzx", 0xB6u8), (true, "movsx", 0xBEu8)] {
+                            self.add("movx", mn, sz, format!("(IMovx {} {} {} {} {})", coq_bool(sg), sz, ssz, r, mm.coq()), format!("{} {}, {}", mn, regname(r, sz), mm.text(ssz)), vec![Op::Reg(r), mm.clone()],
+                                Enc { mode: m, opsz: sz, def64: false, pre: &[], opc: &[0x0F, opc + if ssz == 16 { 1 } else { 0 }], reg: Some(RegF::R(r, false)), rm: Some((&mm, false)), plusr: None, imm: vec![] }, ssz as i64);
+                        }
+                    }
+                    self.add("bitscan", "bsf", sz, format!("(IBsf {} {} {})", sz, r, mm.coq()), format!("bsf {}, {}", regname(r, sz), mm.text(sz)), vec![Op::Reg(r), mm.clone()],
+                        Enc { mode: m, opsz: sz, def64: false, pre: &[], opc: &[0x0F, 0xBC], reg: Some(RegF::R(r, false)), rm: Some((&mm, false)), plusr: None, imm: vec![] }, 0);
+                }
+            }
+            // same-register pairs of the two-register forms that reg_pairs does not reach
+            let r = if sz == 8 && m == Mode::M32 { self.r.below(4) as u8 } else { self.gp_nosp() };
+            let d = Op::Reg(r);
+            self.add("nospec-xadd", "xadd", sz, "(INoSpec 15)".into(), format!("xadd {}, {}", d.text(sz), d.text(sz)), vec![d.clone(), d.clone()],
+                Enc { mode: m, opsz: sz, def64: false, pre: &[], opc: &[0x0F, 0xC0 + w], reg: Some(G::regf(&d, sz)), rm: Some((&d, sz == 8)), plusr: None, imm: vec![] }, 0);
+            self.add("nospec-cmpxchg", "cmpxchg", sz, "(INoSpec 15)".into(), format!("cmpxchg {}, {}", d.text(sz), d.text(sz)), vec![d.clone(), d.clone()],
+                Enc { mode: m, opsz: sz, def64: false, pre: &[], opc: &[0x0F, 0xB0 + w], reg: Some(G::regf(&d, sz)), rm: Some((&d, sz == 8)), plusr: None, imm: vec![] }, 0);
+            // xadd / cmpxchg with the accumulator and with high/low halves of one register
+            let acc = Op::Reg(0);
+            self.add("nospec-cmpxchg", "cmpxchg", sz, "(INoSpec 15)".into(), format!("cmpxchg {}, {}", acc.text(sz), acc.text(sz)), vec![acc.clone(), acc.clone()],
+                Enc { mode: m, opsz: sz, def64: false, pre: &[], opc: &[0x0F, 0xB0 + w], reg: Some(G::regf(&acc, sz)), rm: Some((&acc, sz == 8)), plusr: None, imm: vec![] }, 0);
+            if sz == 8 {
+                let x = self.r.below(4) as u8;
+                for (a, b) in [(Op::RegH(x), Op::Reg(x)), (Op::Reg(x), Op::RegH(x)), (Op::RegH(x), Op::RegH(x))] {
+                    self.add("nospec-xadd", "xadd", 8, "(INoSpec 15)".into(), format!("xadd {}, {}", a.text(8), b.text(8)), vec![a.clone(), b.clone()],
+                        Enc { mode: m, opsz: 8, def64: false, pre: &[], opc: &[0x0F, 0xC0], reg: Some(G::regf(&b, 8)), rm: Some((&a, true)), plusr: None, imm: vec![] }, 0);
+                }
+            }
+            if sz > 8 {
+                // shld/shrd r, r (dst = src), bt* r, r (same), cmov r, r (same), imul r, r, imm (same), bsf/bsr r, r exist
+                for (mn, left, opc_c, opc_i) in [("shld", "true", 0xA5u8, 0xA4u8), ("shrd", "false", 0xAD, 0xAC)] {
+                    self.add("shxd", mn, sz, format!("(IShxd {} {} {} {} (OReg 1))", left, sz, d.coq(), r), format!("{} {}, {}, cl", mn, d.text(sz), regname(r, sz)), vec![d.clone(), d.clone()],
+                        Enc { mode: m, opsz: sz, def64: false, pre: &[], opc: &[0x0F, opc_c], reg: Some(RegF::R(r, false)), rm: Some((&d, false)), plusr: None, imm: vec![] }, -1);
+                    let cnt = *self.r.pick(&[1u64, 4, (sz - 1) as u64]);
+                    self.add("shxd", mn, sz, format!("(IShxd {} {} {} {} (OImm {}))", left, sz, d.coq(), r, cnt), format!("{} {}, {}, 0x{:x}", mn, d.text(sz), regname(r, sz), cnt), vec![d.clone(), d.clone()],
+                        Enc { mode: m, opsz: sz, def64: false, pre: &[], opc: &[0x0F, opc_i], reg: Some(RegF::R(r, false)), rm: Some((&d, false)), plusr: None, imm: imm_bytes(cnt, 1) }, cnt as i64);
+                }
+                for (c, mn, opc) in [("BtT", "bt", 0xA3u8), ("BtS", "bts", 0xAB), ("BtR", "btr", 0xB3), ("BtC", "btc", 0xBB)] {
+                    self.add("bt", mn, sz, format!("(IBt {} {} {} (OReg {}))", c, sz, d.coq(), r), format!("{} {}, {}", mn, d.text(sz), regname(r, sz)), vec![d.clone(), d.clone()],
+                        Enc { mode: m, opsz: sz, def64: false, pre: &[], opc: &[0x0F, opc], reg: Some(RegF::R(r, false)), rm: Some((&d, false)), plusr: None, imm: vec![] }, 0);
+                }
+                let cc = self.r.below(16) as u8;
+                self.add("cmov", &format!("cmov{}", CC_M[cc as usize]), sz, format!("(ICmov {} {} {} {})", CC_C[cc as usize], sz, r, d.coq()), format!("cmov{} {}, {}", CC_M[cc as usize], regname(r, sz), d.text(sz)), vec![d.clone(), d.clone()],
+                    Enc { mode: m, opsz: sz, def64: false, pre: &[], opc: &[0x0F, 0x40 + cc], reg: Some(RegF::R(r, false)), rm: Some((&d, false)), plusr: None, imm: vec![] }, 0);
+                // movzx / movsx from a sub-register of the destination (movzx eax, al ; movsx eax, ah ; movzx eax, ax)
+                let q = self.r.below(4) as u8;
+                for (sg, mn, opc) in [(false, "movzx", 0xB6u8), (true, "movsx", 0xBEu8)] {
+                    for src in [Op::Reg(q), Op::RegH(q)] {
+                        self.add("movx", mn, sz, format!("(IMovx {} {} 8 {} {})", coq_bool(sg), sz, q, src.coq()), format!("{} {}, {}", mn, regname(q, sz), src.text(8)), vec![Op::Reg(q), src.clone()],
+                            Enc { mode: m, opsz: sz, def64: false, pre: &[], opc: &[0x0F, opc], reg: Some(RegF::R(q, false)), rm: Some((&src, true)), plusr: None, imm: vec![] }, 8);
+                    }
+                    if sz > 16 {
+                        self.add("movx", mn, sz, format!("(IMovx {} {} 16 {} (OReg {}))", coq_bool(sg), sz, r, r), format!("{} {}, {}", mn, regname(r, sz), regname(r, 16)), vec![d.clone(), d.clone()],
+                            Enc { mode: m, opsz: sz, def64: false, pre: &[], opc: &[0x0F, opc + 1], reg: Some(RegF::R(r, false)), rm: Some((&d, false)), plusr: None, imm: vec![] }, 16);
+                    }
+                }
+                if sz == 64 {
+                    self.add("movx", "movsxd", 64, format!("(IMovx true 64 32 {} (OReg {}))", r, r), format!("movsxd {}, {}", regname(r, 64), regname(r, 32)), vec![d.clone(), d.clone()],
+                        Enc { mode: m, opsz: 64, def64: false, pre: &[], opc: &[0x63], reg: Some(RegF::R(r, false)), rm: Some((&d, false)), plusr: None, imm: vec![] }, 32);
+                }
+                let raw8 = self.imm(8);
+                let v = (raw8 as u8 as i8 as i64 as u64) & mask(sz);
+                self.add("mul", "imul", sz, format!("(IImul3 {} {} {} {})", sz, r, d.coq(), v), format!("imul {}, {}, 0x{:x}", regname(r, sz), d.text(sz), v), vec![d.clone(), d.clone()],
+                    Enc { mode: m, opsz: sz, def64: false, pre: &[], opc: &[0x6B], reg: Some(RegF::R(r, false)), rm: Some((&d, false)), plusr: None, imm: imm_bytes(raw8, 1) }, 0);
+            }
+        }
+    }
     fn memr(&mut self) -> Op {
         let k = self.r.below(8);
         self.mem(k)
@@ -869,19 +985,21 @@ impl G {
         // SSE encodings: the 0x66 operand-size prefix is part of `pre`; opsz only selects REX.W
         let e2 = Enc { opsz: if e.opsz == 64 { 64 } else { 32 }, ..e };
         if let Some(bytes) = enc(&e2) {
-            self.forms.push(Form { mode: self.mode, coq: "(INoSpec 15)".into(), text, bytes, class, mnem: mnem.into(), sz: mbits, ops, sse: true, aux: 0 });
+            self.forms.push(Form { mode: self.mode, coq: "(INoSpec 15)".into(), text, bytes, class, mnem: mnem.into(), sz: mbits, ops, sse: true, aux: 0, alias: false });
         }
     }
 }
 
 fn all_forms(mode: Mode, seed: u64) -> Vec<Form> {
-    let mut g = G { mode, forms: vec![], r: Rng::for_case(seed, 0x7000_0000 + mode.word() as u64) };
+    let mut g = G { mode, forms: vec![], r: Rng::for_case(seed, 0x7000_0000 + mode.word() as u64), in_alias: false };
     g.alu();
     g.unary();
     g.movs_();
     g.stack_ctl();
     g.shifts_bits_strings();
     g.nospec();
+    g.in_alias = true;
+    g.aliasing();
     g.forms
 }
 
@@ -1257,6 +1375,17 @@ fn main() {
     let mut perm: Vec<usize> = (0..nforms).collect();
     let mut pr = Rng::for_case(args.seed, 0x7fff_fff0);
     for i in (1..nforms).rev() { let j = pr.below(i as u64 + 1) as usize; perm.swap(i, j); }
+    // operand-aliasing forms are visited first, interleaved 1 : 3 with the rest, so that the quick tier reaches all of them
+    {
+        let (al, rest): (Vec<usize>, Vec<usize>) = perm.iter().partition(|k| forms[**k].alias);
+        let (mut ia, mut ir) = (0, 0);
+        let mut out = Vec::with_capacity(nforms);
+        while ia < al.len() || ir < rest.len() {
+            if ia < al.len() { out.push(al[ia]); ia += 1; }
+            for _ in 0..3 { if ir < rest.len() { out.push(rest[ir]); ir += 1; } }
+        }
+        perm = out;
+    }
     let idxs: Vec<u64> = match args.only { Some(i) => vec![i], None => (0..args.n).collect() };
 
     struct Item { f: Form, samples: Vec<Sample>, tags: Vec<String>, lifted: Lifted, first_line: usize }
@@ -1319,6 +1448,7 @@ fn main() {
         let mut tags = vec![format!("mode:{}", mname), format!("class:{}", f.class), format!("lift:{}", lkind), format!("mnem:{}", f.mnem.split(' ').last().unwrap_or("")), format!("sz:{}", f.sz)];
         if f.ops.iter().any(|o| matches!(o, Op::RegH(_))) { tags.push("operand:high-byte".into()); }
         if f.ops.iter().any(|o| o.is_mem()) { tags.push("operand:mem".into()); }
+        if f.alias { tags.push("operand:aliasing-form".into()); }
         tags.extend(it.tags.iter().cloned());
         let descr = format!("{} [{}] {} -- {} samples ({} with processor result); lift: {}{}", mname, hexs(&f.bytes), f.text, it.samples.len(), ncpu_ok, lkind,
             if let Lifted::Mismatch(m) = &it.lifted { format!(" ({})", m) } else { String::new() });
@@ -1347,7 +1477,7 @@ fn main() {
         return;
     }
     let extra = serde_json::json!({
-        "forms_in_tables": nforms, "native_oracle": have_native, "samples_per_encoding": nsamples,
+        "forms_in_tables": nforms, "aliasing_forms_in_tables": forms.iter().filter(|f| f.alias).count(), "native_oracle": have_native, "samples_per_encoding": nsamples,
         "note": "samples:spec-vs-cpu = (encoding, state) pairs on which X86.step was compared with the processor inside Coq (testing of the trusted specification); a disagreement is an oracle failure",
         "stats": stats,
     });
